@@ -389,7 +389,7 @@ func checkErrCell(e *Env, rule, q string) {
 			return
 		}
 		body := core.StaticFn(d)
-		if body == nil || body.Parent() == nil {
+		if body == nil || (body.Parent() == nil && !core.IsAbsorbed(body)) {
 			return
 		}
 		// the cell: an *error argument or a captured error variable that the body compares with nil
